@@ -542,6 +542,17 @@ BOUNDS = {
     "thorough": {"container_dev": 3, "png_patterns": 2, "png_lzw": True, "chain_preds": True, "small_direct": True},
 }
 PNG_GEOMS = [(c, w, b) for b in (8, 1) for c in (1, 3, 4) for w in (1, 2, 3, 5, 8, 9, 16)]
+# pixel sizes (colours x bits) below one byte, above one byte but not a whole number of bytes, and whole bytes other than 1/3/4:
+# bytes-per-pixel and bytes-per-row must both be rounded UP (PNG specification 6.2)
+PNG_GEOMS_X_QUICK = [(c, w, 1) for c in (2, 9, 12, 17) for w in (1, 3, 8)] + [(2, w, 8) for w in (1, 3)]
+PNG_GEOMS_X_THOROUGH = [g for g in (
+    [(c, w, 1) for c in (2, 5, 7, 8, 9, 10, 12, 15, 16, 17, 23, 24, 25) for w in (1, 2, 3, 5, 8, 9)] + [(c, w, 8) for c in (2, 5) for w in (1, 2, 3, 5)]
+) if g not in PNG_GEOMS_X_QUICK]
+
+
+def png_geoms(tier: str):
+    return PNG_GEOMS + PNG_GEOMS_X_QUICK + (PNG_GEOMS_X_THOROUGH if tier == "thorough" else [])
+
 ROW_ASSIGN: List[Tuple[int, ...]] = [t for n in (1, 2, 3) for t in itertools.product(range(5), repeat=n)]  # 155
 TIFF_GEOMS = [(c, w) for c in (1, 2, 3, 4) for w in (1, 2, 3, 5, 8, 16)]
 TIFF_ROWS = (1, 2, 3, 4, 7)
@@ -562,8 +573,10 @@ META = {
         "(LF/CRLF/CR/none), Length direct/indirect before/after, Filter name/array/indirect forms, DecodeParms dict/array/null/indirect "
         "forms, names, key order, separator before endobj) for 9 chains x 8 delimiter-hostile payloads, each file read with BUFSIZ 4096, 7 "
         "(splits 'stream' CR|LF) and 1; paeth: all (left, above, upper-left) triples over 8 boundary values, 1 and 2 colours; png: 42 geometries (colours "
-        "1,3,4 x columns 1,2,3,5,8,9,16 x bits 8,1) x all 155 assignments of row filter types 0-4 to <=3 rows, directly and through a "
-        "Flate (thorough: also LZW) stream; tiff: colours 1-4 x columns 1,2,3,5,8,16 x 1,2,3,4,7 rows (and 2x2, 3x3, 4x4 geometries inside chains).  LZW data is written with "
+        "1,3,4 x columns 1,2,3,5,8,9,16 x bits 8,1) plus pixel sizes that are not 1, 3 or 4 whole bytes (quick: 1-bit colours 2,9,12,17 x columns "
+        "1,3,8 and 8-bit colours 2; thorough: 1-bit colours 2..25 incl. 5,7,8,10,15,16,23,24,25 x columns 1,2,3,5,8,9 and 8-bit colours 2,5) x all 155 assignments of row filter types 0-4 to <=3 rows, directly and through a "
+        "Flate (thorough: also LZW) stream; tiff: colours 1-4 x columns 1,2,3,5,8,16 x 1,2,3,4,7 rows (and 2x2, 3x3, 4x4 geometries inside chains).  LZW clear-table codes: at the start only, every 64 codes, before EOD, every 255 codes "
+        "(just after the switch to 10 bits), and when the table is full (6000-byte payload, direct family in both tiers).  LZW data is written with "
         "EarlyChange 1 (implicit and explicit) and EarlyChange 0 in the direct, chain and container families.  thorough adds a 6000-byte and a "
         "70 kB payload (the latter through chains of Flate/LZW/RunLength only and three container chains).  A case = one encoded datum or stream "
         "decoded and compared with the payload; non-trivial = payload non-empty; states/transitions = nodes/edges of the enumeration "
@@ -602,7 +615,7 @@ def shards(tier):
             out.append(("container", ci, pn))
         if tier == "thorough" and ci in CONTAINER_BIG:
             out.append(("container", ci, "big70k"))
-    for gi in range(len(PNG_GEOMS)):
+    for gi in range(len(png_geoms(tier))):
         out.append(("png", gi))
     out.append(("tiff",))
     for k in range(len(PAETH_VALUES)):
@@ -624,6 +637,8 @@ def run_direct(shard, tier, st):
     f = shard[1]
     if shard[2] == "pool":
         payloads = [p for _, p in pool(tier)]
+        if tier == "quick":
+            payloads.append(POOL_THOROUGH[0][1])  # 6000 low-redundancy bytes: LZW table filled and reset, 12-bit codes
     else:
         k, m = shard[3], shard[4]
         payloads = [p for i, p in enumerate(SMALL) if i % m == k]
@@ -868,7 +883,7 @@ def run_container(shard, tier, st):
 
 # ---- predictors
 def run_png(shard, tier, st):
-    colors, columns, bits = PNG_GEOMS[shard[1]]
+    colors, columns, bits = png_geoms(tier)[shard[1]]
     b = BOUNDS[tier]
     rb = RF.row_bytes(colors, columns, bits)
     st.states += 1
